@@ -17,7 +17,7 @@ rm -rf $out; mkdir -p $out mutations
 R=/dev/shm/mutrepo-$name
 git -C /repo worktree remove --force $R 2>/dev/null
 git -C /repo worktree add -q --detach $R HEAD || exit 2
-export VERIF_REPO=$R VERIF_OUT=$out/outroot
+export VERIF_REPO=$R VERIF_OUT=$out/outroot VERIF_FAIL_FAST=1
 mkdir -p $VERIF_OUT
 bin/mutgen -file $R/$rel -out $out ${funcs:+-funcs $funcs}
 tsv=mutations/sweep-$name.tsv
